@@ -83,6 +83,7 @@ class Ctx:
         self.coq_cases = 0
         self.level = "proof"
         self.harnesses = []
+        self.other_hits = {}
 
     def cleanup(self):
         shutil.rmtree(self.scratch, ignore_errors=True)
@@ -153,7 +154,9 @@ def gen_coqproject():
             for l in open(fl):
                 l = l.strip()
                 if l and not l.startswith("#"):
-                    lines.append(d + "/" + l if "/" not in l else l)
+                    rel = d + "/" + l if "/" not in l else l
+                    if os.path.exists(os.path.join(COQ, rel)):
+                        lines.append(rel)
     txt = "\n".join(lines) + "\n"
     p = os.path.join(COQ, "_CoqProject")
     if not os.path.exists(p) or open(p).read() != txt:
@@ -302,12 +305,43 @@ def go_build(ctx, pkg, name=None, tags="verif", go="go", race=False, test=False,
     return out
 
 
-def run_harness(ctx, binary, sub, args=None, timeout=1800, coq=True, env=None):
+def t2_build(ctx, name, pkg, sources, template_dir, rewrites=None, go="go"):
+    """Tie T2: copy the CURRENT text of the listed source files of REPO into a scratch package, redirecting the
+    imports of sync/atomic, sync and toolkit/queues to the shims (harness/shim), add the property's driver
+    (harness/t2/<template_dir>/driver.go.txt, main.go.txt) and build it. Returns the binary path."""
+    rw = {'"sync/atomic"': 'atomic "verif/harness/shim/atomic"',
+          '"github.com/kercylan98/minotaur/toolkit/queues"': 'queues "verif/harness/shim/queues"'}
+    rw.update(rewrites or {})
+    root = os.path.join(ctx.scratch, "t2_" + name)
+    pdir = os.path.join(root, pkg)
+    os.makedirs(pdir, exist_ok=True)
+    for rel in sources:
+        src = open(os.path.join(REPO, rel)).read()
+        for a, b in rw.items():
+            src = src.replace(a, b)
+        open(os.path.join(pdir, os.path.basename(rel)), "w").write(src)
+    tdir = os.path.join(VERIF, "harness", "t2", template_dir)
+    shutil.copy(os.path.join(tdir, "driver.go.txt"), os.path.join(pdir, "zz_verif_driver.go"))
+    shutil.copy(os.path.join(tdir, "main.go.txt"), os.path.join(root, "main.go"))
+    gomod = open(os.path.join(REPO, "go.mod")).read()
+    req = gomod[gomod.index("require"):]
+    open(os.path.join(root, "go.mod"), "w").write(
+        "module t2scratch\n\ngo 1.23.0\n\nrequire github.com/kercylan98/minotaur v0.0.0\nrequire verif/harness v0.0.0\n"
+        "replace github.com/kercylan98/minotaur => %s\nreplace verif/harness => %s\n%s" % (REPO, os.path.join(VERIF, "harness"), req))
+    shutil.copy(os.path.join(REPO, "go.sum"), os.path.join(root, "go.sum"))
+    out = os.path.join(ctx.scratch, "t2bin_" + name)
+    rc, o, e, dt = sh([go, "build", "-o", out, "."], cwd=root, env=GOENV, timeout=1200)
+    if rc != 0:
+        raise CheckError("T2 build of instrumented %s failed (does the current source still fit the shims?):\n%s" % (name, (o + e)[-4000:]))
+    return out
+
+
+def run_harness(ctx, binary, sub, args=None, timeout=1800, coq=True, env=None, kinds=None):
     """Run one sub-harness, then evaluate its shards in Coq. Fills ctx.subs / ctx.viol / ctx.mismatch."""
     outdir = os.path.join(ctx.scratch, "out_" + sub)
     os.makedirs(outdir, exist_ok=True)
     cmd = [binary, "-out", outdir, "-seed", str(ctx.seed), "-tier", ctx.tier] + (args or [])
-    ctx.harnesses.append((binary, sub, list(args or []), env))
+    ctx.harnesses.append((binary, sub, list(args or []), env, kinds))
     rc, o, e, dt = sh(cmd, timeout=timeout, env=env)
     if rc != 0:
         raise CheckError("harness %s failed rc=%s:\n%s" % (sub, rc, (o + e)[-4000:]))
@@ -320,7 +354,11 @@ def run_harness(ctx, binary, sub, args=None, timeout=1800, coq=True, env=None):
         s["wall_s"] = round(dt, 2)
         ctx.subs.append(s)
         for v in s.get("violations") or []:
-            ctx.viol.append(v)
+            # kinds: only monitor hits of these kinds concern this property (a harness may serve several)
+            if kinds is None or any(v.get("kind", "").startswith(k) for k in kinds):
+                ctx.viol.append(v)
+            else:
+                ctx.other_hits[v.get("kind")] = ctx.other_hits.get(v.get("kind"), 0) + 1
         if coq and s.get("shards"):
             t1 = time.time()
             res = run_shards(ctx, outdir, s["shards"])
@@ -376,7 +414,7 @@ def default_search(ctx, budget_s=None):
     tried = 0
     while time.time() - t0 < budget and ctx.harnesses:
         k += 1
-        for (binary, sub, args, env) in ctx.harnesses:
+        for (binary, sub, args, env, kinds) in ctx.harnesses:
             left = budget - (time.time() - t0)
             if left <= 0:
                 break
@@ -388,6 +426,8 @@ def default_search(ctx, budget_s=None):
                 s = json.load(open(sp))
                 tried += s.get("evaluations", 0)
                 for v in s.get("violations") or []:
+                    if kinds is not None and not any(v.get("kind", "").startswith(k) for k in kinds):
+                        continue
                     if not match_known(ctx.prop, v):
                         v["search"] = {"seed": ctx.seed + 7919 * k, "tier": "thorough", "inputs_tried": tried}
                         return v
@@ -525,7 +565,7 @@ def finish(ctx, checker_cmd, design_ref="", search=None):
             "evaluations": evals, "distinct_nontrivial": dnt,
             "traces_validated_against_impl": ctx.coq_cases,
             "model_impl_disagreements": len(ctx.mismatch),
-            "monitor_hits": len(ctx.viol), "known_finding_hits": {k: n for k, (f, n) in known_seen.items()},
+            "monitor_hits": len(ctx.viol), "monitor_hits_of_other_properties": ctx.other_hits, "known_finding_hits": {k: n for k, (f, n) in known_seen.items()},
             "rule": " || ".join("%s: %s" % (s["sub"], s["rule"]) for s in ctx.subs),
             "samples": samples or [{"note": "proof-only run"}],
             "distribution": {s["sub"]: s.get("distribution") for s in ctx.subs},
